@@ -166,6 +166,6 @@ fn terminal_token(input: ParseString) -> ParseResult<Token> {
   let (input, mut t) = many0(tuple((is_not(quote),any_token)))(input)?;
   let (input, _) = quote(input)?;
   let mut t = t.into_iter().map(|(_,b)| b).collect::<Vec<Token>>();
-  let token =  Token::merge_tokens(&mut t).unwrap();
+  let token =  Token::merge_tokens(&mut t).unwrap_or(Token::default());
   Ok((input,token))
 }
